@@ -84,6 +84,23 @@ pub fn scenario_a(idx: usize, seed: u64) -> ScenarioResult {
         let k2 = w.gen_key();
         let by2 = w.start_node(NodeCfg::new(k2)).unwrap();
 
+        // company (see class B): established connections to parties that are not High peers; they
+        // are set up before the table exists and the tap is cleared afterwards, so that only
+        // background dials are read off it
+        let mut company = Vec::new();
+        if rng.gen_bool(0.4) {
+            for j in 0..rng.gen_range(1..=8usize) {
+                let sk = w.gen_key();
+                let st = w.start_node(NodeCfg::new(sk)).unwrap();
+                let ok = if j % 2 == 0 { st.net.connect(n.addr).await.is_ok() } else { n.net.connect(st.addr).await.is_ok() };
+                if ok {
+                    company.push(st);
+                }
+            }
+            tokio::time::sleep(Duration::from_millis(200)).await;
+            let _ = w.fabric.take_tap();
+        }
+
         // table
         let n_high = rng.gen_range(1..=6usize);
         let mut addr_owner: HashMap<SocketAddr, usize> = HashMap::new();
@@ -262,6 +279,7 @@ pub fn scenario_a(idx: usize, seed: u64) -> ScenarioResult {
             "class": "all-unreachable", "scenario": idx, "seed": seed,
             "interval_ms": i_ms, "backoff_ms": b_ms, "max_backoff_ms": m_ms, "connect_timeout_ms": ct_ms, "cap": cap,
             "high_peers": high.iter().map(|(_, a)| a.len()).collect::<Vec<_>>(),
+            "established_connections_to_non_high_parties": company.len(),
             "virtual_span_s": span_s, "attempts": attempts.len(), "max_in_flight": max_inflight,
             "first_attempts": attempts.iter().take(12).map(|a| format!("t={}ms -> {}", a.t / 1000, a.dst)).collect::<Vec<_>>(),
         });
@@ -287,6 +305,7 @@ pub fn scenario_a(idx: usize, seed: u64) -> ScenarioResult {
             .count("cap_limited_scenarios", (cap < 100) as u64)
             .count("cap_with_explicit_dials_scenarios", explicit as u64)
             .count("cap_start_checks", explicit_blocked_checks)
+            .count("scenarios_with_non_high_connections", (!company.is_empty()) as u64)
     })
 }
 
@@ -345,6 +364,30 @@ pub fn scenario_b(idx: usize, seed: u64) -> ScenarioResult {
         }
         // stagger the insertions
         tokio::time::sleep(Duration::from_millis(rng.gen_range(0..3_000))).await;
+        // company: connections N holds to parties that are NOT High peers of its table - strangers
+        // that dialed in, strangers N dialed explicitly, Allowed-affinity entries that dialed in.
+        // They change nothing about who must be dialed in the background, and how soon.
+        let mut strangers = Vec::new();
+        let n_strangers = if rng.gen_bool(0.5) { rng.gen_range(1..=3usize) } else { 0 };
+        for j in 0..n_strangers {
+            let mut sc = NodeCfg::new(w.gen_key());
+            sc.config.quic = Some(q.clone());
+            let st = w.start_node(sc).unwrap();
+            let ok = match j % 3 {
+                0 => st.net.connect(n.addr).await.is_ok(),
+                1 => n.net.connect(st.addr).await.is_ok(),
+                _ => {
+                    n.net.known_peers().insert(PeerInfo { peer_id: st.peer_id, affinity: PeerAffinity::Allowed, address: vec![] });
+                    st.net.connect(n.addr).await.is_ok()
+                }
+            };
+            if ok {
+                strangers.push(st);
+            }
+        }
+        if n_strangers > 0 {
+            trace.push(format!("t={}ms {} connections to parties that are not High peers", w.now() / 1000, strangers.len()));
+        }
         // some peers are listed with a dead address first: the first attempt fails, the second
         // (next address in rotation) succeeds; after a later loss the rotation starts at 0 again
         let two_addr: Vec<bool> = (0..np).map(|_| rng.gen_bool(0.4)).collect();
@@ -523,6 +566,7 @@ pub fn scenario_b(idx: usize, seed: u64) -> ScenarioResult {
             .count("persistence_checks", persist_checks)
             .count("recovery_after_failures_checks", recover_checks)
             .count("rotation_restart_checks", rotation_restarts)
+            .count("scenarios_with_non_high_connections", (!strangers.is_empty()) as u64)
     })
 }
 
